@@ -163,8 +163,12 @@ fn authenticate_message(lm_challenge_response: &[u8], nt_challenge_response:&[u8
 fn get_payload_field(message: &Component, length: u16, buffer_offset: u32) -> RdpResult<&[u8]> {
     let payload = cast!(DataType::Slice, message["Payload"])?;
     let offset = message.length() as usize - payload.len();
-    let start = buffer_offset as usize - offset;
+    // offset and length come from the peer : the field must lie inside the payload
+    let start = try_option!((buffer_offset as usize).checked_sub(offset), "NTLM: payload field overlaps the message header")?;
     let end = start + length as usize;
+    if end > payload.len() {
+        return Err(Error::RdpError(RdpError::new(RdpErrorKind::InvalidSize, "NTLM: payload field exceeds the message")))
+    }
     Ok(&payload[start..end])
 }
 
@@ -553,7 +557,7 @@ impl AuthenticationProtocol  for Ntlm {
             target_info[&AvId::MsvAvTimestamp].clone()
         }
         else {
-            panic!("no timestamp available")
+            return Err(Error::RdpError(RdpError::new(RdpErrorKind::InvalidData, "NTLM: no timestamp available in the challenge message")))
         };
 
         // generate client challenge
